@@ -128,7 +128,7 @@ struct ReallocAlloc {
   ReallocAlloc(const ReallocAlloc<U> &) noexcept;
   T *allocate(size_type n);
   T *reallocate(pointer p, size_type oldCapacity, size_type newCapacity, size_type nConstructedElems);
-  void deallocate(T *p, size_type n);
+  void deallocate(T *p, size_type n) noexcept;
   template <class U>
   struct rebind {
     using other = ReallocAlloc<U>;
@@ -150,7 +150,7 @@ struct ArenaAlloc {
   template <class U>
   ArenaAlloc(const ArenaAlloc<U> &) noexcept;
   T *allocate(size_type n);
-  void deallocate(T *p, size_type n);
+  void deallocate(T *p, size_type n) noexcept;
   template <class U>
   struct rebind {
     using other = ArenaAlloc<U>;
@@ -168,12 +168,12 @@ struct InputIt {  // single pass
   using difference_type = std::ptrdiff_t;
   using pointer = const E *;
   using reference = const E &;
-  reference operator*() const;
-  pointer operator->() const;
-  InputIt &operator++();
-  InputIt operator++(int);
-  bool operator==(const InputIt &) const;
-  bool operator!=(const InputIt &) const;
+  reference operator*() const noexcept;
+  pointer operator->() const noexcept;
+  InputIt &operator++() noexcept;
+  InputIt operator++(int) noexcept;
+  bool operator==(const InputIt &) const noexcept;
+  bool operator!=(const InputIt &) const noexcept;
 };
 
 template <class E>
@@ -183,12 +183,12 @@ struct FwdIt {
   using difference_type = std::ptrdiff_t;
   using pointer = const E *;
   using reference = const E &;
-  reference operator*() const;
-  pointer operator->() const;
-  FwdIt &operator++();
-  FwdIt operator++(int);
-  bool operator==(const FwdIt &) const;
-  bool operator!=(const FwdIt &) const;
+  reference operator*() const noexcept;
+  pointer operator->() const noexcept;
+  FwdIt &operator++() noexcept;
+  FwdIt operator++(int) noexcept;
+  bool operator==(const FwdIt &) const noexcept;
+  bool operator!=(const FwdIt &) const noexcept;
 };
 
 template <class E>
@@ -198,14 +198,14 @@ struct BidirIt {
   using difference_type = std::ptrdiff_t;
   using pointer = const E *;
   using reference = const E &;
-  reference operator*() const;
-  pointer operator->() const;
-  BidirIt &operator++();
-  BidirIt operator++(int);
-  BidirIt &operator--();
-  BidirIt operator--(int);
-  bool operator==(const BidirIt &) const;
-  bool operator!=(const BidirIt &) const;
+  reference operator*() const noexcept;
+  pointer operator->() const noexcept;
+  BidirIt &operator++() noexcept;
+  BidirIt operator++(int) noexcept;
+  BidirIt &operator--() noexcept;
+  BidirIt operator--(int) noexcept;
+  bool operator==(const BidirIt &) const noexcept;
+  bool operator!=(const BidirIt &) const noexcept;
 };
 
 // mutable forward iterator (for the memory algorithms' destination side)
@@ -216,12 +216,12 @@ struct MutFwdIt {
   using difference_type = std::ptrdiff_t;
   using pointer = E *;
   using reference = E &;
-  reference operator*() const;
-  pointer operator->() const;
-  MutFwdIt &operator++();
-  MutFwdIt operator++(int);
-  bool operator==(const MutFwdIt &) const;
-  bool operator!=(const MutFwdIt &) const;
+  reference operator*() const noexcept;
+  pointer operator->() const noexcept;
+  MutFwdIt &operator++() noexcept;
+  MutFwdIt operator++(int) noexcept;
+  bool operator==(const MutFwdIt &) const noexcept;
+  bool operator!=(const MutFwdIt &) const noexcept;
 };
 
 // ---------------------------------------------------------------- comparators
